@@ -2,7 +2,7 @@
   C15 (closed form for nested documents) — every scope and every definition reports the 1-based source
   line on which its name actually stands.  Setting: a nested document under an arbitrary well-formed
   nested layout (Phil/Props/C02Nested.lean for the vocabulary: `LayItem`, `renderN`, `wfDocN`),
-  dotted names included.
+  dottedName names included.
 
   As in the flat case (Phil/Props/C15Layout.lean) the statement is not circular: the recorded line of
   an object is compared with `1 + (number of newlines in the text in front of its name)`, where "the
@@ -11,9 +11,9 @@
   `namePos_is_prefix` shows that every such text, followed by the name as written, really is a prefix
   of the rendered document.  An entry of `layNamePos` is `(name, pos)` with
     * `pos = some (before, written)` — `before` the text in front of the name (a `!` included),
-      `written` the name as it stands in the text (the dotted name for a dotted item: the innermost
+      `written` the name as it stands in the text (the dottedName name for a dottedName item: the innermost
       object of `a.b.c = 1` is named `c` and stands where `a.b.c` begins);
-    * `pos = none` — a scope `scope.adopt` builds for a leading component of a dotted name: it has no
+    * `pos = none` — a scope `scope.adopt` builds for a leading component of a dottedName name: it has no
       source position (`where_str` is empty), its recorded line is `none`.
   The lines of the words of every definition are part of the closed form `layLined` (`linedWords`, as
   in the flat case: `1 +` the newlines in front of the word).
@@ -49,7 +49,7 @@ theorem namePos_is_prefix (xs : List LayItem) (post : Pre) (n before written : S
     (name, source line) of all objects of the tree in document order (a scope before its children) is
     the list of (name, `1 +` number of newlines in the text in front of that name — `NamePos.line`)
     of all scopes and definitions of the document (`none` for the position-less scopes built for the
-    leading components of a dotted name); every listed text is a prefix of the document that ends
+    leading components of a dottedName name); every listed text is a prefix of the document that ends
     where the name begins.  Multi-line quoted words, blank lines, comment lines, `name` and `{` on
     different lines, several items and `}` on one line are all covered by the layout language. -/
 theorem nested_lines_correct (xs : List LayItem) (post : Pre) (h : wfDocN xs post = true) :
@@ -70,7 +70,7 @@ example : (layNamePos (exWildN true true false) []).map (fun e => (String.ofList
   decide +kernel
 
 open Phil.C02 in
-/-- … and with `f.g = 4` spelt dotted: the scope `f` built by `scope.adopt` has no line, `g` is on
+/-- … and with `f.g = 4` spelt dottedName: the scope `f` built by `scope.adopt` has no line, `g` is on
     line 8 -/
 example : (layNamePos (exWildN true true true) []).map (fun e => (String.ofList e.1, e.2.line))
     = [("x", some 2), ("a", some 4), ("y", some 6), ("e", some 7), ("z", some 7), ("f", none),
